@@ -517,6 +517,8 @@ def w_labellers(ctx, rng, i):
     OTHER_SIZES = sorted(set(n_ for _, _, n_ in Ls) - {N})        # a shape meant for another labeller is of the wrong size too
     kind = ["ndarray", "PointCloud", "Labelled", "TriMesh", "PointTree", "PointUndirectedGraph"][(i // len(Ls)) % 6]
     d = 3 if ("bu3dfe" in name or "human36M" in name or rng.random() < 0.2) else 2
+    if rng.random() < 0.06:
+        d = 4            # a labeller only re-indexes: the number of coordinates per point is none of its business
     pts = gen.points(rng, N, d, min_sep=0.001)
 
     def wrap(p):
@@ -571,10 +573,14 @@ def w_labellers(ctx, rng, i):
             ctx.fail("labeller_left_a_point_unlabelled", cls=name, mech=kind)
     log_group("labeller:" + name, out)
     # commutes with any transform of the input
-    h = np.eye(d + 1); h[:d, :d] = gen.well_conditioned(rng, d); h[:d, d] = rng.uniform(-5, 5, d)
-    T = mt.Affine(h)
+    L_, t_ = gen.well_conditioned(rng, d), rng.uniform(-5, 5, d)
+
+    class T(object):           # (an affine map of any dimensionality, applied to bare coordinates)
+        @staticmethod
+        def apply(p):
+            return np.asarray(p, dtype=float) @ L_.T + t_
     out_t = f(wrap(T.apply(pts)))
-    if _amax(out_t.points - T.apply(op)) > 1e-9 * max(1.0, np.abs(op).max()):
+    if out_t.points.shape != op.shape or _amax(out_t.points - T.apply(op)) > 1e-9 * max(1.0, np.abs(op).max()):
         ctx.fail("labeller_does_not_commute_with_a_transform", cls=name, mech=kind)
     if hasattr(out, "_labels_to_masks"):
         same = list(out_t._labels_to_masks.keys()) == list(out._labels_to_masks.keys()) and all(
@@ -600,6 +606,25 @@ def w_labellers(ctx, rng, i):
             pass
         except Exception as e:
             ctx.fail("labeller_rejected_wrong_size_with_the_wrong_error", cls=name, mech="%s:%s:%s" % (kind, "smaller" if M < N else "larger", type(e).__name__))
+    # ... also when the wrong-sized input is itself the output of another labeller (chained by mistake): labelled, with that
+    # scheme's label names
+    others = [(n2, f2, N2) for n2, f2, N2 in Ls if f2 is not f]
+    for j_ in rng.permutation(len(others))[:3]:
+        n2, f2, N2 = others[j_]
+        try:
+            mid = f2(gen.points(rng, N2, d, min_sep=0.001))
+        except Exception:
+            continue
+        if mid.n_points == N:
+            continue
+        ctx.tap("chained_labellers", "calls"); ctx.tap("chained_labellers", "checked")
+        try:
+            f(mid)
+            ctx.fail("labeller_accepted_input_of_the_wrong_size", cls=name, mech="output_of_another_labeller:" + ("smaller" if mid.n_points < N else "larger"), given=int(mid.n_points), expected=N, other=n2)
+        except LabellingError:
+            pass
+        except Exception as e:
+            ctx.fail("labeller_rejected_wrong_size_with_the_wrong_error", cls=name, mech="output_of_another_labeller:" + type(e).__name__)
     ctx.see("labellers", name)
     ctx.count_case(("labeller", name, kind), nontrivial=True, sample={"labeller": name, "input": kind, "n_in": N, "n_out": int(out.n_points)} if i < 3 else None)
 
